@@ -13,6 +13,9 @@ D9 `slices_preserved_keys` was false (country, currency, reinsurance_basis, loss
 import Bermuda.Lemmas.FrameMatrix
 import Bermuda.Lemmas.FrameLongIncr
 import Bermuda.Lemmas.FrameMatrixIndex
+import Bermuda.Lemmas.FrameRich
+import Bermuda.Lemmas.FrameStatics
+import Bermuda.Model.FrameDF
 namespace Bermuda.Properties.C14
 open Bermuda Bermuda.Frame Bermuda.Spec.C14
 
@@ -123,8 +126,10 @@ theorem rows_count_long {t : List Cell} {tb : Table} (h : toLongRows t = .ok tb)
         simp [hf, hl]
 
 /-- **fromWide_toWide** (cumulative triangles, `WFwide`: non-empty, strictly sorted, `Cell` /
-`CumulativeCell`, table-safe metadata and column names, every cell all-scalar or all-sample with
-every field when sampled; `D` / `L` the detail / loss-detail columns handed to the reader).
+`CumulativeCell`, table-safe metadata and column names, every cell all-scalar or all-sample; the cells
+may carry DIFFERENT field sets, sampled ones too — a field a cell lacks is empty in each of its scenario
+rows and is dropped again by the reader (fix D24; before it the reader returned `array([None, …],
+dtype=object)` there); `D` / `L` the detail / loss-detail columns handed to the reader).
 Writing the triangle to the wide table and reading it back — grouping the rows by the key list
 REGENERATED from `data_frame_input.py` — gives the triangle itself: same cells in the same order,
 coordinates, slice metadata (all eight attributes), field sets, numbers as floats (a one-sample array
@@ -276,7 +281,60 @@ theorem wfwide_example : WFwide ex ["coverage"] [] where
       | none => simp [hd] at this
       | some data => exact ⟨data, rfl, by simpa [hd] using this⟩
     · intro _
-      exact ⟨by decide, by rw [h2]; intro f hf; exact hf⟩
+      exact ⟨"paid_loss", by decide, by rw [h2]; decide⟩
+
+
+/-- `WFwide` holds for a SAMPLED triangle whose cells carry different field sets (the second cell has no
+`paid_loss`): the domain fix D24 opened -/
+def ragCell (ev : Date) (vs : Dict Val) : Cell :=
+  { kind := .cumulative, ps := ⟨2020, 1, 1⟩, pe := ⟨2020, 12, 31⟩, ev := ev, values := vs,
+    md := { country := some "DE", details := [("coverage", .str "BI")] } }
+
+def exRag : List Cell :=
+  [ragCell ⟨2020, 12, 31⟩ [("paid_loss", .arr false [2] [1, 2]), ("reported_loss", .arr false [2] [3, 4])],
+   ragCell ⟨2021, 12, 31⟩ [("reported_loss", .arr false [2] [5, 6])]]
+
+theorem wfwide_ragged_example : WFwide exRag ["coverage"] [] where
+  ne := by decide
+  sorted := by
+    unfold exRag
+    simp only [List.pairwise_cons, List.mem_cons, List.not_mem_nil, or_false, forall_eq_or_imp, forall_eq,
+      List.Pairwise.nil, and_true, false_implies, implies_true]
+    decide +kernel
+  cum := by decide +kernel
+  dates := by decide +kernel
+  md := by
+    intro c hc
+    have hcanon : ∀ c ∈ exRag, c.md.Canon := by decide +kernel
+    have hmd : ∀ c ∈ exRag, c.md.details = [("coverage", .str "BI")] ∧ c.md.lossDetails = [] ∧
+        c.md.riskBasis.isSome = true := by decide +kernel
+    obtain ⟨h1, h2, h3⟩ := hmd c hc
+    exact ⟨hcanon c hc, h3, by rw [h1]; decide, by rw [h2]; decide, by rw [h1]; decide, by rw [h2]; decide⟩
+  names := by
+    have hF : allFields exRag = ["paid_loss", "reported_loss"] := by decide +kernel
+    rw [hF]
+    exact ⟨by unfold strictKeys; decide, by unfold strictKeys; decide, by decide, by decide, by decide⟩
+  cells := by
+    have hF : allFields exRag = ["paid_loss", "reported_loss"] := by decide +kernel
+    rw [hF]
+    intro c hc
+    have hv : ∀ c ∈ exRag, sampleCount c = 2 ∧ (Dict.keys c.values).contains "reported_loss" = true ∧
+        (Dict.keys c.values).Nodup ∧
+        (c.values.all fun kv => (valData kv.2).map List.length == some 2) = true := by decide +kernel
+    obtain ⟨h1, h2, h3, h4⟩ := hv c hc
+    rw [h1]
+    refine ⟨by decide, ?_, ?_, h3⟩
+    · intro kv hkv
+      have := List.all_eq_true.mp h4 kv hkv
+      simp only [beq_iff_eq] at this
+      cases hd : valData kv.2 with
+      | none => simp [hd] at this
+      | some data => exact ⟨data, rfl, by simpa [hd] using this⟩
+    · intro _
+      exact ⟨"reported_loss", by decide, by simpa using h2⟩
+
+/-- … and its row count: two scenario rows per cell -/
+theorem exRag_rows : wideRowCount exRag = some 4 := by decide +kernel
 
 /-- `RegularSingle` is satisfiable: -/
 def qCell (ps pe ev : Date) (v : Val) : Cell :=
@@ -368,5 +426,262 @@ theorem contiguous_example : Contiguous exQ 3 ∧ ∀ c ∈ exQ, MonthCell c := 
               psv := by decide, ps1 := rfl, pev := by decide, pee := by decide, evv := by decide,
               eve := by decide, vals := by intro kv hkv; simp [qCell] at hkv; subst hkv; rfl,
               nodup := by decide, vne := by simp [qCell] }
+
+/-! ### Rich matrix (`io/rich_matrix.py`) -/
+
+/-- **fromRich_toRich** (`RichGrid t ix`: a strictly sorted month-aligned triangle — cumulative, or
+incremental with every previous evaluation date one development step before the evaluation date — whose
+periods are one index period long and start on the index grid and whose lags lie on the development
+grid; one or several slices, complete or holey; values ARBITRARY: Python ints and floats, `None`,
+sample arrays of any dtype / shape; `ix.fields` any duplicate-free non-empty list, a subset or
+superset of the triangle's fields). `rich_matrix_to_triangle(triangle_to_rich_matrix(t))` is exactly
+`t.filterMap (richBack ix.fields)`: the cells that hold a value of an index field, in the same order,
+with the same coordinates, class, previous evaluation date and slice metadata; their values are the
+index fields that have a value, in index order, each number with its Python kind, each array with
+its dtype and shape, a size-1 array as its float; `None` values, fields outside the index and cells
+left without a value do not come back. -/
+theorem fromRich_toRich {t : List Cell} {ix : MatrixIndex} (h : RichGrid t ix) :
+    (toRichWith ix ix.fields t).bind fromRich = .ok (t.filterMap (richBack ix.fields)) :=
+  Frame.fromRich_toRichWith h
+
+/-- … as the Bool Spec clause the driver evaluates on the implementation's output -/
+theorem fromRich_toRich_spec {t : List Cell} {ix : MatrixIndex} (h : RichGrid t ix) :
+    okAnd (richSpec ix.fields t) ((toRichWith ix ix.fields t).bind fromRich) = true := by
+  rw [Frame.fromRich_toRichWith h]
+  exact richSpec_iff.mpr rfl
+
+/-- … for the public call `triangle_to_rich_matrix(tri, eval_resolution, fields)` with any arguments
+(`fields` not the empty list), whenever the index `MatrixIndex.from_triangle` builds from them puts the
+triangle on its grid -/
+theorem fromRich_toRich_call {t : List Cell} {ix : MatrixIndex} {evalRes : Option Int}
+    {fields : Option (List String)} (hf : fields ≠ some [])
+    (hix : MatrixIndex.ofTriangleWith t evalRes fields = .ok ix) (h : RichGrid t ix) :
+    (toRich t evalRes fields).bind fromRich = .ok (t.filterMap (richBack ix.fields)) :=
+  Frame.fromRich_toRich_of_index hf hix h
+
+/-- … and for the default call on a cumulative triangle with numeric scalar values and contiguous
+periods (the domain of `fromMatrix_toMatrix_contiguous`), with NO grid hypothesis: the inferred index is
+on the grid by `matrixIndex_onGrid`; here every cell comes back with every field, numbers with their
+Python kind (the plain Matrix form returns floats). -/
+theorem fromRich_toRich_contiguous {t : List Cell} {ix : MatrixIndex} {e : Int} (hne : t ≠ [])
+    (hsorted : t.Pairwise (fun a b => Cell.cmp a b = .lt)) (hkinds : kindsConsistent t = true)
+    (hcell : ∀ c ∈ t, MonthCell c) (hc : Contiguous t e)
+    (hix : MatrixIndex.ofTriangle t = .ok ix)
+    (hd : ix.devResolution ∣ ix.expResolution ∨ ix.expResolution ∣ ix.devResolution) :
+    (toRich t).bind fromRich = .ok (t.filterMap (richBack ix.fields)) := by
+  have hg := matrixIndex_onGrid hne hsorted hkinds hcell hc hix (matrixIndex_lags_of_dvd hne hc hix hd)
+  have hr := hg.rich
+  have hdev : ix.devResolution ≠ 0 := by
+    have := hg.s1
+    unfold devSpacing at this
+    omega
+  exact Frame.fromRich_toRich_of_index (by simp) (ofTriangleWith_default hix hdev hr.fieldsNe) hr
+
+/-- **toRich_placement**: dimensions, every observed value at the index `MatrixIndex` resolves for its
+cell (a number as it is, a sample array as `PredictedValue`, a size-1 array as its float), and nothing
+else in the array except `MissingValue`s. -/
+theorem toRich_placement {t : List Cell} {ix : MatrixIndex} (h : RichGrid t ix) :
+    ∃ M, toRichWith ix ix.fields t = .ok M ∧ M.index = ix ∧ M.incremental = firstIsIncremental t ∧
+      (∀ c ∈ t, jOf ix c < M.nPeriods ∧ kOf ix c < M.nDevs) ∧
+      (∀ c ∈ t, ∀ f ∈ ix.fields, ∀ v, wanted c f = some v →
+        M.get? (siOf ix c, fiOf ix f, jOf ix c, kOf ix c) = some v) ∧
+      (∀ p v, M.get? p = some v → (∃ id, v = .missing id) ∨
+        ∃ c ∈ t, ∃ f ∈ ix.fields, p = (siOf ix c, fiOf ix f, jOf ix c, kOf ix c) ∧ wanted c f = some v) :=
+  Frame.toRichWith_placement h
+
+/-- `RichGrid` is satisfiable: quarterly periods from 2021-04, an int, a `None`, a two-sample array, a
+size-1 int array and a float; the index lists a field no cell has -/
+def rCell (ps pe ev : Date) (vs : Dict Val) : Cell :=
+  { kind := .cumulative, ps := ps, pe := pe, ev := ev, values := vs, md := {} }
+
+def exR : List Cell :=
+  [rCell ⟨2021, 4, 1⟩ ⟨2021, 6, 30⟩ ⟨2021, 6, 30⟩ [("paid_loss", .int 100), ("reported_loss", .none)],
+   rCell ⟨2021, 4, 1⟩ ⟨2021, 6, 30⟩ ⟨2021, 9, 30⟩ [("paid_loss", .arr false [2] [1, 2])],
+   rCell ⟨2021, 7, 1⟩ ⟨2021, 9, 30⟩ ⟨2021, 9, 30⟩ [("reported_loss", .flt (5/2)), ("paid_loss", .arr true [1] [7])]]
+
+def ixR : MatrixIndex :=
+  { slices := [{}], fields := ["paid_loss", "earned_premium", "reported_loss"], expOrigin := 615, devOrigin := 0,
+    expResolution := 3, devResolution := 3 }
+
+theorem richGrid_example : RichGrid exR ixR where
+  ne := by decide
+  sorted := by
+    unfold exR
+    simp only [List.pairwise_cons, List.mem_cons, List.not_mem_nil, or_false, forall_eq_or_imp, forall_eq,
+      List.Pairwise.nil, and_true, false_implies, implies_true]
+    decide +kernel
+  slices := by decide +kernel
+  e1 := by decide
+  s1 := by decide
+  fieldsNodup := by decide
+  fieldsNe := by decide
+  cell := by
+    have hinc : firstIsIncremental exR = false := by decide
+    rw [hinc]
+    intro c hc
+    simp only [exR, List.mem_cons, List.not_mem_nil, or_false] at hc
+    rcases hc with rfl | rfl | rfl
+    · exact { pos := { dates := by decide +kernel, canon := by decide +kernel, psv := by decide, ps1 := rfl,
+                        pev := by decide, pee := by decide, evv := by decide, eve := by decide,
+                        j := ⟨0, by decide⟩, pe := by decide, k := ⟨0, by decide⟩ },
+              kind := by decide, prev := rfl, nodup := by decide }
+    · exact { pos := { dates := by decide +kernel, canon := by decide +kernel, psv := by decide, ps1 := rfl,
+                        pev := by decide, pee := by decide, evv := by decide, eve := by decide,
+                        j := ⟨0, by decide⟩, pe := by decide, k := ⟨1, by decide⟩ },
+              kind := by decide, prev := rfl, nodup := by decide }
+    · exact { pos := { dates := by decide +kernel, canon := by decide +kernel, psv := by decide, ps1 := rfl,
+                        pev := by decide, pee := by decide, evv := by decide, eve := by decide,
+                        j := ⟨1, by decide⟩, pe := by decide, k := ⟨0, by decide⟩ },
+              kind := by decide, prev := rfl, nodup := by decide }
+
+/-- what comes back for the example: all three cells; the `None` is gone, the size-1 array is a float,
+the sample array is itself -/
+theorem richBack_example :
+    exR.filterMap (richBack ixR.fields) =
+      [rCell ⟨2021, 4, 1⟩ ⟨2021, 6, 30⟩ ⟨2021, 6, 30⟩ [("paid_loss", .int 100)],
+       rCell ⟨2021, 4, 1⟩ ⟨2021, 6, 30⟩ ⟨2021, 9, 30⟩ [("paid_loss", .arr false [2] [1, 2])],
+       rCell ⟨2021, 7, 1⟩ ⟨2021, 9, 30⟩ ⟨2021, 9, 30⟩ [("paid_loss", .flt 7), ("reported_loss", .flt (5/2))]] := by
+  decide +kernel
+
+/-! ### The rest of `io/array.py`: statics frame, right-edge frame -/
+
+/-- **fromStatics** (`StaticsFrame rows res ev md`: first-of-month periods from 1970 on, strictly
+ascending, `res ≥ 1`, the constructor's date rules hold). `statics_data_frame_to_triangle(df,
+evaluation_date=ev, period_resolution=res, metadata=md)` is one `CumulativeCell` per row: the period of
+`res` months starting at the row's period, `ev`, the row's values, `md` — in row order. -/
+theorem fromStatics_frame {rows : List (Date × Dict Val)} {res : Int} {ev : Date} {md : Metadata}
+    (h : StaticsFrame rows res ev md) :
+    fromStatics (rows.map staticsRowOf) (some ev) (some res) md = .ok (rows.map (staticsExpected md res ev)) :=
+  Frame.fromStatics_frame h
+
+/-- … as the Spec clause -/
+theorem fromStatics_frame_spec {rows : List (Date × Dict Val)} {res : Int} {ev : Date} {md : Metadata}
+    (h : StaticsFrame rows res ev md) :
+    ∃ out, fromStatics (rows.map staticsRowOf) (some ev) (some res) md = .ok out ∧
+      out.length = rows.length ∧ ∀ p ∈ rows, staticsExpected md res ev p ∈ out := by
+  refine ⟨_, Frame.fromStatics_frame h, by simp, ?_⟩
+  intro p hp
+  exact List.mem_map_of_mem hp
+
+/-- … with the resolution INFERRED by the reader — `(p₁ - p₀).days // 30` — whenever that quotient is
+the resolution meant. It is for every start month and resolution 1/3/6/12 EXCEPT a February start of
+monthly periods (0) and of quarterly periods in a non-leap year (2): `statics_inference_table`
+(observation D20, notes/agents/c14b.md; not a clause of C14). -/
+theorem fromStatics_frame_inferred {rows : List (Date × Dict Val)} {res : Int} {ev : Date} {md : Metadata}
+    (h : StaticsFrame rows res ev md)
+    (hp : ∃ p0 p1 rest, rows = p0 :: p1 :: rest ∧ (p1.1.ordinal - p0.1.ordinal) / 30 = res) :
+    fromStatics (rows.map staticsRowOf) (some ev) none md = .ok (rows.map (staticsExpected md res ev)) :=
+  Frame.fromStatics_frame_inferred h hp
+
+theorem statics_inference_table :
+    ([2021, 2024].all fun (y : Int) => (List.range 12).all fun m0 => [1, 3, 6, 12].all fun res =>
+      decide (inferredFor y m0 res = .ok
+        (if res = 1 ∧ m0 = 1 then 0 else if res = 3 ∧ m0 = 1 ∧ y = 2021 then 2 else (res : Int)))) = true :=
+  Frame.statics_inference_table
+
+/-- monthly periods from February with the resolution inferred: resolution 0, and the cell constructor
+refuses the first row (`period_end` before `period_start`) -/
+theorem statics_february_refused :
+    staticsResolution [⟨2021, 2, 1⟩, ⟨2021, 3, 1⟩] none = .ok 0 ∧
+    staticsCell {} 0 ⟨2021, 3, 31⟩ (⟨2021, 2, 1⟩, [("earned_premium", .int 100)]) = .error .valueError :=
+  Frame.statics_february_refused
+
+/-- **right-edge frame → statics frame**: `to_right_edge_data_frame` has one row per cell of
+`triangle.right_edge` (period start, evaluation date, the cell's values) … -/
+theorem toRightEdgeFrame_rows {t : List Cell} {rows : List EdgeRow} (h : toRightEdgeFrame t = .ok rows) :
+    ∃ E, Triangle.rightEdge t = .ok E ∧ rows = E.map edgeRow := by
+  unfold toRightEdgeFrame at h
+  split at h
+  · cases h
+  · split at h
+    · cases h
+    · cases hE : Triangle.rightEdge t with
+      | error e => simp [hE, Except.map] at h
+      | ok E =>
+        simp only [hE, Except.map] at h
+        cases h
+        exact ⟨E, rfl, rfl⟩
+
+/-- … and when that right edge `E` is regular (periods of `res` months, ONE evaluation date `ev`,
+cumulative, metadata `md`), the frame without its `evaluation_date` column, read by the statics reader
+with `ev`, `res` and `md`, is `E` again. -/
+theorem fromStatics_toRightEdge {E : List Cell} {res : Int} {ev : Date} {md : Metadata}
+    (h : StaticsFrame (E.map fun c => edgePair (edgeRow c)) res ev md)
+    (hE : ∀ c ∈ E, c.kind = .cumulative ∧ c.prev = none ∧ c.pe = periodEndOf c.ps res ∧ c.ev = ev ∧ c.md = md) :
+    fromStatics ((E.map edgeRow).map fun r => staticsRowOf (edgePair r)) (some ev) (some res) md = .ok E :=
+  Frame.fromStatics_edgeRows h hE
+
+/-- `StaticsFrame` is satisfiable (quarterly periods from 2021-04, evaluated 2021-12-31) -/
+theorem staticsFrame_example :
+    StaticsFrame [(⟨2021, 4, 1⟩, [("earned_premium", .int 100)]), (⟨2021, 7, 1⟩, [("earned_premium", .flt (5/2))])]
+      3 ⟨2021, 12, 31⟩ {} where
+  res1 := by decide
+  first := by decide
+  asc := by
+    simp only [List.pairwise_cons, List.mem_cons, List.not_mem_nil, or_false, forall_eq, List.Pairwise.nil,
+      and_true, false_implies, implies_true]
+    decide
+  dates := by decide +kernel
+
+
+/-! ### The in-memory data frames (no CSV text in between) -/
+
+theorem firstIsIncremental_false_of_cum {t : List Cell} (h : ∀ c ∈ t, c.kind ≠ .incremental ∧ c.prev = none) :
+    firstIsIncremental t = false := by
+  cases t with
+  | nil => rfl
+  | cons c rest =>
+    have := (h c List.mem_cons_self).1
+    simp only [firstIsIncremental]
+    cases hk : c.kind <;> simp_all
+
+/-- **wide data frame, cumulative**: `from_wide_data_frame(to_wide_data_frame(t), …)` passes the readers'
+column-type check and is the CSV round trip of `fromWide_toWide` (same rows, no text layer). -/
+theorem fromWideFrame_toWideFrame {t : List Cell} {D L : List String} (h : WFwide t D L) :
+    okAnd (fun out => wideSpec t out && slicesSpec false t out) (wideFrameRoundTrip t (allFields t) D L) = true := by
+  have hinc := firstIsIncremental_false_of_cum h.cum
+  have hchk : checkIndexColumns (wideFrameDtypes t) = .ok () := by
+    unfold wideFrameDtypes
+    rw [hinc]
+    decide
+  have := fromWide_toWide h
+  unfold wideFrameRoundTrip
+  cases htb : toWideRows t with
+  | error e => simp [htb, Except.bind, okAnd] at this
+  | ok tb =>
+    simp only [htb, Except.bind, hchk] at this ⊢
+    exact this
+
+/-- **long data frame: never reads back.** `to_long_data_frame` types `evaluation_date` as a
+`PeriodIndex` (`period[D]`, no `.to_timestamp()`), which `_check_index_columns` of the reader refuses:
+`from_long_data_frame(to_long_data_frame(t))` raises for EVERY triangle the writer accepts
+(observation D21, notes/agents/c14b.md; the property's statement is about the CSV files, which
+carry the dates as text and do read back: `fromLong_toLong`). -/
+theorem longFrame_never_reads_back {t : List Cell} {tb : Table} (L : List String) (h : toLongRows t = .ok tb) :
+    longFrameRoundTrip t L = .error .other := by
+  unfold longFrameRoundTrip
+  simp only [h, Except.bind]
+  have : checkIndexColumns (longFrameDtypes t) = .error .other := by
+    unfold longFrameDtypes
+    cases firstIsIncremental t <;> decide
+  rw [this]
+
+/-- **wide data frame, incremental: refused** (`prev_evaluation_date` is written as `period[D]`) -/
+theorem wideFrame_incremental_refused {t : List Cell} {tb : Table} (F D L : List String)
+    (hi : firstIsIncremental t = true) (h : toWideRows t = .ok tb) :
+    wideFrameRoundTrip t F D L = .error .other := by
+  unfold wideFrameRoundTrip
+  simp only [h, Except.bind]
+  have : checkIndexColumns (wideFrameDtypes t) = .error .other := by
+    unfold wideFrameDtypes
+    rw [hi]
+    decide
+  rw [this]
+
+/-- the CSV path hands the readers `datetime64` columns (`parse_dates`): the check passes -/
+theorem csv_columns_pass (t : List Cell) : checkIndexColumns (csvDtypes t) = .ok () := by
+  unfold csvDtypes
+  cases firstIsIncremental t <;> decide
+
 
 end Bermuda.Properties.C14
